@@ -22,8 +22,10 @@ impl ReplayProtection {
     }
 
     pub fn already_received(&self, sequence: u64) -> bool {
-        if sequence + NETCODE_REPLAY_BUFFER_SIZE as u64 <= self.most_recent_sequence {
-            return true;
+        if let Some(limit) = sequence.checked_add(NETCODE_REPLAY_BUFFER_SIZE as u64) {
+            if limit <= self.most_recent_sequence {
+                return true;
+            }
         }
 
         let index = sequence as usize % NETCODE_REPLAY_BUFFER_SIZE;
